@@ -918,7 +918,7 @@ func (x *repoExec) envActions(s *absState, enabled map[string]bool, contents int
 			out = append(out, repoAct{Name: "Replace", E: e})
 		}
 		isLeaf := true
-		for _, y := range s.Present {
+		for _, y := range x.l.Ents { // present or not: a deleted configuration may come back
 			isLeaf = isLeaf && s.Par[y] != e
 		}
 		if enabled["MakeCsr"] && isLeaf && s.Par[e] != "" {
